@@ -226,9 +226,9 @@ pub fn units(tier: Tier, _seed: u64) -> Vec<Unit> {
     let mut u = vec![];
     let ss_ns: Vec<usize> = if q { vec![1, 2, 3, 4, 5, 6, 7, 8, 9, 10, 12, 16, 20, 32] } else { vec![1, 2, 3, 4, 5, 6, 7, 8, 9, 10, 16, 20, 48] };
     for &n in &ss_ns {
-        let k = (2 * n + 4).max(12).min(40);
+        let k = (2 * n + 4).max(12).min(40).max(n + 8);
         u.push(unit!(format!("C11/SuperSmoother({n})/k={k}"), linear(VK::SuperSmoother(n), k, Kind::Tol(1e-5))));
-        if n >= 2 { let kk = (n + 2 + 4 + 8).min(40); u.push(unit!(format!("C11/Roofing({n},4)/k={kk}"), linear(VK::Roofing(n, 4), kk, Kind::Tol(1e-5)))); }
+        if n >= 2 { let kk = (n + 2 + 4 + 8).min(40).max(n + 4 + 6); u.push(unit!(format!("C11/Roofing({n},4)/k={kk}"), linear(VK::Roofing(n, 4), kk, Kind::Tol(1e-5)))); }
         if n >= 2 && n <= 8 { let kk = (2 * n + 10).min(40); u.push(unit!(format!("C11/Roofing({n},{n})/k={kk}"), linear(VK::Roofing(n, n), kk, Kind::Tol(1e-5)))); }
         u.push(unit!(format!("C11/CyberCycle({n})/k={k}"), linear(VK::CyberCycle(n), k.max(14), Kind::Exact)));
     }
